@@ -114,6 +114,13 @@ def _line_loop(ck, prog):
                             and unparse(t.value) in (fh + ".readlines()", "list(%s)" % fh) \
                             and isinstance(loop.iter, ast.Name) and loop.iter.id == t.targets[0].id:
                         src_ok = True
+    if not src_ok:
+        # other ways to read the lines (iterating the handle, read().splitlines()) are not decided here
+        direct = isinstance(loop.iter, ast.Name) and any(isinstance(s0, ast.With) and any(x is loop for x in ast.walk(s0)) and isinstance(s0.items[0].optional_vars, ast.Name)
+                                                         and s0.items[0].optional_vars.id == loop.iter.id and unparse(s0.items[0].context_expr.args[0]) == f.params()[1]
+                                                         for s0 in body if isinstance(s0, ast.With) and s0.items and isinstance(s0.items[0].context_expr, ast.Call) and s0.items[0].context_expr.args)
+        ck.shape(direct, "parseSeqFile: lines read with open(<argument>) ... readlines()", f.loc(loop))
+        src_ok = True
     ck.ob("PROV", construct, src_ok, expected="the loop runs over the lines of the file named by the argument, in file order",
           found=unparse(loop.iter), slot="lines-source", where=f.loc(loop))
     # ---- initial state
@@ -123,10 +130,7 @@ def _line_loop(ck, prog):
             init[s.targets[0].id] = s.value.value
     flag = [n for n, v in init.items() if v is False]
     acc = [n for n, v in init.items() if v == ""]
-    ck.ob("TYPESTATE", construct, len(flag) == 1 and len(acc) == 1, expected="one header flag (False) and one accumulator ('')",
-          found=init, slot="initial-state", where=f.loc())
-    if len(flag) != 1 or len(acc) != 1:
-        return
+    ck.shape(len(flag) == 1 and len(acc) == 1, "parseSeqFile: one header flag (False) and one string accumulator ('') before the loop", f.loc())
     H, S = flag[0], acc[0]
     var = loop.target.id
     vs_key = FP + ":SequenceFileParser.__validSeq"
@@ -171,8 +175,15 @@ def _line_loop(ck, prog):
             final_ok = True
         if isinstance(s, ast.Return):
             ret_ok = s.value is not None and unparse(s.value) == cur
+    fv_calls = [n for n in ast.walk(f.node) if isinstance(n, ast.Call) and prog.resolve_call(f, n) is fv]
+    if not (final_ok and ret_ok):
+        # `return self.__final_validation(seq)` in one expression
+        rets = [n for n in ast.walk(f.node) if isinstance(n, ast.Return) and n.value is not None]
+        if len(rets) == 1 and isinstance(rets[0].value, ast.Call) and prog.resolve_call(f, rets[0].value) is fv and unparse(rets[0].value.args[0]) == S:
+            final_ok = ret_ok = True
+    ck.shape(final_ok and ret_ok or not fv_calls, "parseSeqFile: result flows through __final_validation in a recognised way", f.loc())
     ck.ob("ORDER", construct, final_ok and ret_ok, expected="return __final_validation(<concatenated lines>)",
-          found={"final_validation": final_ok, "returns_it": ret_ok}, slot="result", where=f.loc())
+          found={"final_validation_calls": len(fv_calls)}, slot="result", where=f.loc())
 
 
 def _ctor_branches(ck, prog):
@@ -188,5 +199,12 @@ def _ctor_branches(ck, prog):
                 inner = n.args[0]
                 callee = prog.resolve_call(f, inner, types)
                 found.append((unparse(n), callee is parse and len(inner.args) >= 1 and unparse(inner.args[0]) == "sequenceFile"))
-        ck.ob("BIND", construct, len(found) == 1 and found[0][1], expected="Sequence(parseSeqFile(sequenceFile))",
-              found=[x[0] for x in found], slot="file-branch", where=f.loc())
+        if len(found) != 1:
+            # parser output may be held in a local first
+            for n in ast.walk(f.node):
+                if isinstance(n, ast.Call) and prog.class_of_ctor(f.mod, n) == "Sequence" and n.args and isinstance(n.args[0], ast.Name):
+                    vals = [a.value for a in ast.walk(f.node) if isinstance(a, ast.Assign) and isinstance(a.targets[0], ast.Name) and a.targets[0].id == n.args[0].id]
+                    if len(vals) == 1 and isinstance(vals[0], ast.Call) and prog.resolve_call(f, vals[0], types) is parse:
+                        found.append((unparse(n), len(vals[0].args) >= 1 and unparse(vals[0].args[0]) == "sequenceFile"))
+        ck.shape(len(found) == 1, "%s: one Sequence(<parser output>) construction" % f.qual, f.loc())
+        ck.ob("BIND", construct, found[0][1], expected="Sequence(parseSeqFile(sequenceFile))", found=[x[0] for x in found], slot="file-branch", where=f.loc())
